@@ -93,6 +93,11 @@ fn explore(ctx: &Ctx) -> Outcome {
     let mut rest: Vec<LzInput> = lzfam::structure_grid(ctx.tier);
     let grid_n = rest.len();
     rest.extend(lzfam::header_boundaries(ctx.tier));
+    // around 1 MiB (a size limit written with one hex digit too few shows only here); cheap for LZ10
+    for n in [0xF_FFFFusize, 0x10_0000, 0x10_0001, 0x20_0000] {
+        rest.push(LzInput { family: "header", desc: format!("zeros n={}", n), data: vec![0u8; n] });
+        rest.push(LzInput { family: "header", desc: format!("period-3 n={}", n), data: (0..n).map(|i| (i % 3) as u8).collect() });
+    }
     let t = rest
         .par_iter()
         .fold(Tally::new, |mut t, inp| {
@@ -130,7 +135,7 @@ fn explore(ctx: &Ctx) -> Outcome {
         o.warn(format!("vacuity note: reference classes never emitted: {:?}", missing));
     }
     o.assumptions = vec![
-        "inputs up to 64 KiB (16 MiB-1 at the thorough tier) — 'every input shorter than 16 MiB' is covered at the length boundaries and by small-scope exhaustion, not in full".into(),
+        "inputs up to 2 MiB (16 MiB-1 at the thorough tier) — 'every input shorter than 16 MiB' is covered at the length boundaries and by small-scope exhaustion, not in full".into(),
         "unused flag bits of the last group are not constrained".into(),
     ];
     o
